@@ -323,7 +323,7 @@ Definition CRT (o : option N) (s : st) (ci : cinfo) (id : N) : Prop :=
 Definition CF2 (o : option N) (e : env) (s : st) : Prop :=
   Forall2 (fun a b => fst a = fst b /\ CRT o s (snd a) (snd b)) (e_cls e) (s_nclass s).
 Definition DF2 (o : option N) (e : env) (s : st) : Prop :=
-  Forall2 (fun a b => fst a = fst b /\ CR o s (snd a) (snd b) /\
+  Forall2 (fun a b => fst a = fst b /\ CRT o s (snd a) (snd b) /\
                       (forall r, nthN (s_recs s) (snd b) = Some r -> rc_class r = false)) (e_dtbl e) (s_ndef s) /\
   map fst (e_defs e) = map fst (e_dtbl e).
 (** a name is local for the specification iff it is local for the model *)
@@ -399,7 +399,7 @@ Proof.
   intros o e s s' (C & [D1 D2] & T & W) V Hs. pose proof V as (Hr & Hm & Hc & Hd & _).
   split; [|split; [split|split]].
   - unfold CF2 in *. rewrite Hc. eapply Forall2_imp; [|exact C]. intros a b [X Y]. split; [exact X|now apply (CRT_VR o s s')].
-  - rewrite Hd. eapply Forall2_imp; [|exact D1]. intros a b (X & Y & Z). split; [exact X|]. split; [now apply (CR_VR o s s')|].
+  - rewrite Hd. eapply Forall2_imp; [|exact D1]. intros a b (X & Y & Z). split; [exact X|]. split; [now apply (CRT_VR o s s')|].
     now rewrite Hr.
   - exact D2.
   - intros nm sym ty H1 H2. rewrite (find_local_VR s s' nm Hs V) in H1. apply (TYPS_VR s s'); auto. eapply T; eassumption.
@@ -715,7 +715,7 @@ Proof.
   - unfold CF2. simpl. rewrite G1, Hc. eapply Forall2_imp; [|exact C].
     intros a b [X Y]. split; [exact X|now apply (CRT_VR o s _ _ _ V)].
   - simpl. rewrite G2, Hd. eapply Forall2_imp; [|exact D1].
-    intros a b (X & Y & Z). split; [exact X|]. split; [now apply (CR_VR o s _ _ _ V)|]. now rewrite Hr.
+    intros a b (X & Y & Z). split; [exact X|]. split; [now apply (CRT_VR o s _ _ _ V)|]. now rewrite Hr.
   - simpl. now rewrite G2, G3.
   - intros nm sym ty H1 H2. rewrite (find_local_with_var0 s l c t nm Hs) in H1.
     rewrite tlocal_tset_var, e_tfr_add_var in H2. destruct (e_tfr e) as [|tf tt] eqn:Et; [discriminate|].
@@ -1035,17 +1035,20 @@ Proof.
     destruct (nth_decl_F2 _ _ _ _ _ _ _ _ C E A) as [_ X]. exact (proj1 X).
   - destruct (nth_decl (e_dtbl e) k) as [[n tb0]|] eqn:E; [|discriminate]. simpl in Hf. injection Hf as <-.
     destruct Ht as (n0 & did & n1 & A & ->). exists did, n1. split; [reflexivity|].
-    destruct (nth_decl_F2 _ _ _ _ _ _ _ _ D1 E A) as (_ & X & _). exact X.
+    destruct (nth_decl_F2 _ _ _ _ _ _ _ _ D1 E A) as (_ & X & _). exact (proj1 X).
 Qed.
 
 Lemma ftys_of_model : forall o e s ty ft t,
-    CF2 o e s -> ftys_of e ty = Some ft -> TYPm s t ty ->
+    CF2 o e s -> DF2 o e s -> ftys_of e ty = Some ft -> TYPm s t ty ->
     exists id n1, t = MRecord id n1 /\ (o <> Some id -> FLDT s id ft).
 Proof.
-  intros o e s ty ft t C Hf Ht. destruct ty as [|k|k|ty']; simpl in *; try discriminate.
-  destruct (nth_decl (e_cls e) k) as [[n ci]|] eqn:E; [|discriminate]. simpl in Hf. injection Hf as <-.
-  destruct Ht as (n0 & cid & n1 & A & ->). exists cid, n1. split; [reflexivity|].
-  destruct (nth_decl_F2 _ _ _ _ _ _ _ _ C E A) as [_ X]. exact (proj2 X).
+  intros o e s ty ft t C [D1 D2] Hf Ht. destruct ty as [|k|k|ty']; simpl in *; try discriminate.
+  - destruct (nth_decl (e_cls e) k) as [[n ci]|] eqn:E; [|discriminate]. simpl in Hf. injection Hf as <-.
+    destruct Ht as (n0 & cid & n1 & A & ->). exists cid, n1. split; [reflexivity|].
+    destruct (nth_decl_F2 _ _ _ _ _ _ _ _ C E A) as [_ X]. exact (proj2 X).
+  - destruct (nth_decl (e_dtbl e) k) as [[n ci]|] eqn:E; [|discriminate]. simpl in Hf. injection Hf as <-.
+    destruct Ht as (n0 & did & n1 & A & ->). exists did, n1. split; [reflexivity|].
+    destruct (nth_decl_F2 _ _ _ _ _ _ _ _ D1 E A) as (_ & X & _). exact (proj2 X).
 Qed.
 
 (** ---- what `index_simple` returns for an identifier / a class value *)
@@ -1187,20 +1190,31 @@ Proof.
   destruct sf as [|single|i fr]; cbn [spec_sufs] in *; rewrite ?suf_sty_unk in *; try (now apply IH). discriminate.
 Qed.
 
-Lemma sufs_sim : forall sufs f e s t ty,
+Lemma sty_sufs_unk : forall e sufs, sty_sufs e TUnk sufs = TUnk.
+Proof. intros e sufs. induction sufs as [|sf r IH]; [reflexivity|]. unfold sty_sufs in *. simpl. now rewrite suf_sty_unk. Qed.
+Lemma sty_sufs_cons : forall e t sf r, sty_sufs e t (sf :: r) = sty_sufs e (suf_sty e t sf) r.
+Proof. reflexivity. Qed.
+
+(** the suffix loop: the uses are the specification's, and the type that comes out is the one it records *)
+Lemma sufs_sim_typed : forall sufs f e s t ty,
     Pre f e s -> TYPm s t ty -> forallb resolved (spec_sufs f e ty sufs) = true ->
     s_bad (snd (sufs_loop t sufs s)) = false ->
-    Step s (snd (sufs_loop t sufs s)) (spec_sufs f e ty sufs).
+    Step s (snd (sufs_loop t sufs s)) (spec_sufs f e ty sufs) /\
+    TYPm (snd (sufs_loop t sufs s)) (match fst (sufs_loop t sufs s) with Some t' => t' | None => MUnknown end)
+         (sty_sufs e ty sufs).
 Proof.
-  induction sufs as [|sf r IH]; intros f e s t ty P Ht HR Hb; [apply Step_refl|].
-  cbn [sufs_loop] in *.
+  induction sufs as [|sf r IH]; intros f e s t ty P Ht HR Hb; [split; [apply Step_refl|exact Ht]|].
+  cbn [sufs_loop] in *. rewrite sty_sufs_cons.
   assert (Hskip : forall o ty', (forall s0, suf_step sf t s0 = (o, s0)) ->
-                            spec_sufs f e ty (sf :: r) = spec_sufs f e ty' r ->
+                            spec_sufs f e ty (sf :: r) = spec_sufs f e ty' r -> suf_sty e ty sf = ty' ->
                             (forall t', o = Some t' -> TYPm s t' ty') -> (o = None -> ty' = TUnk) ->
-                            Step s (snd (bind (suf_step sf t) (fun t' => sufs_loop t' r) s)) (spec_sufs f e ty (sf :: r))).
-  { intros o ty' Ho Hs Hty Hn. rewrite Hs in *. unfold bind in *. rewrite Ho in *. destruct o as [t'|]; cbn [fst snd] in *.
+                            Step s (snd (bind (suf_step sf t) (fun t' => sufs_loop t' r) s)) (spec_sufs f e ty (sf :: r)) /\
+                            TYPm (snd (bind (suf_step sf t) (fun t' => sufs_loop t' r) s))
+                                 (match fst (bind (suf_step sf t) (fun t' => sufs_loop t' r) s) with Some t' => t' | None => MUnknown end)
+                                 (sty_sufs e (suf_sty e ty sf) r)).
+  { intros o ty' Ho Hs Hst Hty Hn. rewrite Hs, Hst in *. unfold bind in *. rewrite Ho in *. destruct o as [t'|]; cbn [fst snd] in *.
     - apply (IH f e s t' ty'); auto.
-    - rewrite (Hn eq_refl) in *. rewrite (sufs_unk_nil f e r HR). apply Step_refl. }
+    - rewrite (Hn eq_refl) in *. rewrite (sufs_unk_nil f e r HR), sty_sufs_unk. split; [apply Step_refl|exact I]. }
   destruct sf as [|single|i fr].
   - apply (Hskip (match t with MBits _ => Some MBit | _ => None end) TUnk); try reflexivity; try (intros; exact I).
   - destruct single.
@@ -1229,18 +1243,25 @@ Proof.
     assert (Hty2 : TYPm s (lf_ty lf) ty2).
     { unfold ty2. cbn [suf_sty]. destruct (ftys_of e ty) as [ft|] eqn:Eft; [|exact I].
       destruct (lookup (i_name i) ft) as [x|] eqn:Ex; [|exact I].
-      destruct (ftys_of_model _ e s ty ft _ C Eft Ht) as (id' & n1' & Heq & Hft). injection Heq as <- <-.
+      destruct (ftys_of_model _ e s ty ft _ C D Eft Ht) as (id' & n1' & Heq & Hft). injection Heq as <- <-.
       specialize (Hft Hno (i_name i) fid x Eff Ex). apply TYPS_iff in Hft.
       destruct Hft as [->|(id2 & lf2 & Hs & Hl2 & _ & Hm)]; [exact I|]. injection Hs as <-.
       assert (lf2 = lf) by congruence. subst lf2. exact Hm. }
     change ((at_file f (i_rng i), Some (lf_loc lf)) :: spec_sufs f e ty2 r)
       with ([(at_file f (i_rng i), Some (lf_loc lf))] ++ spec_sufs f e ty2 r).
-    eapply Step_trans.
-    + eapply Step_eq; [exact S1|]. rewrite E1. unfold loc, at_file. now rewrite (pre_file f e s P).
-    + destruct S1 as [_ V1 _ _]. apply (IH f e s1 (lf_ty lf) ty2); auto; [eapply Pre_VR; [exact P|exact V1|]|].
-      * unfold s1, add_reference, upd, add_pos; simpl. destruct (rng_empty loc); reflexivity.
-      * exact (TYPm_VR s s1 _ _ V1 Hty2).
+    assert (V1 : VR s s1) by (destruct S1 as [_ V1 _ _]; exact V1).
+    assert (P1 : Pre f e s1).
+    { eapply Pre_VR; [exact P|exact V1|]. unfold s1, add_reference, upd, add_pos; simpl. destruct (rng_empty loc); reflexivity. }
+    destruct (IH f e s1 (lf_ty lf) ty2 P1 (TYPm_VR s s1 _ _ V1 Hty2) HR2 Hb) as [St Tt].
+    split; [|exact Tt].
+    eapply Step_trans; [|exact St].
+    eapply Step_eq; [exact S1|]. rewrite E1. unfold loc, at_file. now rewrite (pre_file f e s P).
 Qed.
+Lemma sufs_sim : forall sufs f e s t ty,
+    Pre f e s -> TYPm s t ty -> forallb resolved (spec_sufs f e ty sufs) = true ->
+    s_bad (snd (sufs_loop t sufs s)) = false ->
+    Step s (snd (sufs_loop t sufs s)) (spec_sufs f e ty sufs).
+Proof. intros. now apply sufs_sim_typed. Qed.
 
 Lemma VR_index_simple : forall n sv, resp VR (index_simple n sv).
 Proof. apply (r_index_simple VR VR_refl VR_trans); vr_prim. Qed.
@@ -1333,7 +1354,7 @@ Proof.
         -- destruct D as [D1 D2]. destruct (def_aligned _ e s _ rid k (conj D1 D2) Hd Ep) as [n0 A].
            assert (Ep2 := Ep). rewrite (pos_of_keys _ _ (i_name i) (e_defs e) (e_dtbl e) D2) in Ep2.
            destruct (pos_of_nth_decl _ _ _ _ Ep2) as (n' & tb & B & _).
-           destruct (nth_decl_F2 _ _ _ _ _ _ _ _ D1 B A) as (_ & (Hv & _) & Hcl).
+           destruct (nth_decl_F2 _ _ _ _ _ _ _ _ D1 B A) as (_ & ((Hv & _) & _) & Hcl).
            simpl in Hv. unfold sym_type. rewrite Hr. destruct (nthN (s_recs s) rid) as [rc|] eqn:Erc; [|congruence].
            simpl in Hcl. rewrite (Hcl rc Erc). unfold find_def in *. rewrite Hnd, Hd. discriminate.
         -- exfalso. destruct D as [D1 D2].
@@ -1991,17 +2012,29 @@ Lemma value_typed : forall n v f e s,
     TYPm (snd (index_value n v s)) (match fst (index_value n v s) with Some t => t | None => MUnknown end) (sty_value e v).
 Proof.
   intros n [r inners] f e s P HR Hb.
-  destruct inners as [|[sv sufs] rest]; [exact I|]. destruct sufs; [|exact I]. destruct rest; [|exact I].
+  destruct inners as [|[sv sufs] rest]; [exact I|]. destruct rest; [|exact I].
   cbn [sty_value].
   destruct n as [|n]; [discriminate|]. rewrite value_single_eq in *.
-  destruct n as [|n]; [discriminate|]. rewrite inner_nosuf_eq in *.
-  destruct n as [|n]; [discriminate|].
-  assert (HR1 : forallb resolved (spec_simple f e sv) = true).
-  { change (spec_value f e (Val r [Inner sv []])) with ((spec_simple f e sv ++ []) ++ []) in HR. now rewrite !app_nil_r in HR. }
-  destruct (fst (index_simple (S n) sv s)) as [t0|] eqn:E.
-  - now apply (simple_typed n sv f e s t0 P HR1).
-  - destruct (sty_simple e sv) eqn:Es; [exact I| | |];
-      exfalso; apply (typed_some n sv f e s); try assumption; rewrite Es; discriminate.
+  destruct n as [|n]; [discriminate|]. rewrite index_inner_eq in *.
+  assert (HR' : forallb resolved (spec_simple f e sv ++ spec_sufs f e (sty_simple e sv) sufs) = true).
+  { change (spec_value f e (Val r [Inner sv sufs])) with ((spec_simple f e sv ++ spec_sufs f e (sty_simple e sv) sufs) ++ []) in HR.
+    now rewrite app_nil_r in HR. }
+  rewrite forallb_app in HR'. apply andb_true_iff in HR'. destruct HR' as [HR1 HR2].
+  destruct n as [|n].
+  { exfalso. unfold bind in Hb. simpl in Hb. discriminate. }
+  pose proof (VR_index_simple (S n) sv s) as V1.
+  pose proof (proj1 (proj2 (proj2 (values_keep_all (S n)))) sv s) as K1.
+  unfold bind in *. destruct (index_simple (S n) sv s) as [[t0|] s1] eqn:E; cbn [fst snd] in *.
+  - assert (Ht : TYPm s1 t0 (sty_simple e sv)).
+    { replace s1 with (snd (index_simple (S n) sv s)) by now rewrite E.
+      apply (simple_typed n sv f e s t0 P HR1). now rewrite E. }
+    assert (P1 : Pre f e s1) by (eapply Pre_VR; eassumption).
+    exact (proj2 (sufs_sim_typed sufs f e s1 t0 _ P1 Ht HR2 Hb)).
+  - (* no type for the simple value: the specification knows none either *)
+    assert (Hty : sty_simple e sv = TUnk).
+    { destruct (sty_simple e sv) eqn:Es; [reflexivity| | |];
+        exfalso; apply (typed_some n sv f e s); try assumption; try (rewrite Es; discriminate); now rewrite E. }
+    rewrite Hty, sty_sufs_unk. exact I.
 Qed.
 
 (** the initial state is related to the empty environment *)
